@@ -11,7 +11,7 @@
    |model - implementation| <= tolerance entry by entry (and the same shape).  The driver also
    validates the tape against the hypotheses of the theorems (draws in [0,1), index arrays that
    are permutations of range(N)).  None = the code raises / the tape does not fit. *)
-From Coq Require Import List ZArith QArith Qabs Bool.
+From Coq Require Import List ZArith QArith Qabs Qround Bool Floats Uint63.
 From Artap Require Export Base.Ord Model.Samplers.
 Import ListNotations.
 Local Open Scope Q_scope.
@@ -24,6 +24,29 @@ Definition fq (m e : Z) : Q :=
   | Zneg p => Qmake m (Pos.shiftl 1 (Npos p))
   end.
 
+(* Literals of the generated case files.  Number notations of Z and nat are interpreted by evaluating Gallina
+   conversion functions (about 1.4 ms per literal: minutes for the case files of one run); primitive float and
+   primitive integer literals are read natively.  `ff x` is the exact rational value of the binary64 number x
+   (through Prim2SF: sign, mantissa, exponent), `ni i` the natural number of a primitive integer. *)
+Definition ff (x : float) : Q :=
+  match Prim2SF x with
+  | S754_finite s m e => let v := fq (Zpos m) e in if s then - v else v
+  | _ => 0                                   (* zeros; infinities / nan are never emitted by the harness *)
+  end.
+Definition ni (i : int) : nat := Z.to_nat (Uint63.to_Z i).
+Definition nis (l : list int) : list nat := map ni l.
+Arguments ff _%float_scope.
+Arguments ni _%uint63_scope.
+Arguments nis _%uint63_scope.
+
+Example ff_exact :
+  ff 0x1.8p+1 == 3 /\ ff (-0x1.8p-2) == - (3 # 8) /\ ff 0x0p+0 == 0 /\ ff (-0x0p+0) == 0 /\
+  ff 0x1.999999999999ap-4 = Qmake 7205759403792794 (Pos.shiftl 1 56) /\                  (* the double 0.1 *)
+  ff 0x0.0000000000001p-1022 = Qmake 1 (Pos.shiftl 1 1074) /\                            (* smallest subnormal *)
+  ff 0x1.fffffffffffffp+1023 = inject_Z (Z.shiftl 9007199254740991 971) /\               (* largest double *)
+  ff 0x1.fffffffffffffp-1 = Qmake 9007199254740991 (Pos.shiftl 1 53) /\ Nat.eqb (ni 65537) (Z.to_nat 65537) = true /\ nis [0; 3]%uint63 = [0; 3]%nat.
+Proof. vm_compute. repeat split. Qed.
+
 Inductive c12_event :=
 | ERand (m : list (list Q))
 | EPerm (p : list nat).
@@ -31,6 +54,7 @@ Inductive c12_event :=
 Inductive c12_case :=
 | CLhs (N : nat) (bs : list (Q * Q)) (tape : list c12_event)
 | CHalton (N : nat) (bs : list (Q * Q))
+| CHaltonAt (N : nat) (bs : list (Q * Q)) (idxs : list nat)     (* only the rows of the listed point numbers (from 1) *)
 | CGrid (k : nat) (bs : list (Q * Q))
 | CRandom (N : nat) (ps : list (Q * Q * Q)) (tape : list Q).
 
@@ -81,6 +105,11 @@ Definition c12_run (c : c12_case) : c12_obs :=
   | CHalton N bs =>
       if (length bs =? 0)%nat then None                  (* ValueError: np.stack of an empty list *)
       else option_map exact (build_halton N bs)
+  | CHaltonAt N bs idxs =>
+      (* large designs: the rows of the selected point numbers, by the closed form of one row
+         (C12_halton_selected_rows: equal to those rows of build_halton N bs); None if a number is outside 1..N *)
+      if (length bs =? 0)%nat then None
+      else option_map exact (build_halton_at N bs idxs)
   | CGrid k bs =>
       if (k =? 1)%nat && negb (length bs =? 0)%nat then None      (* ZeroDivisionError in the code *)
       else Some (exact (uniform_grid k bs))
@@ -104,3 +133,82 @@ Definition c12_eqb (m x : c12_obs) : bool :=
   | Some a, Some b => all2 (all2 close) a b
   | _, _ => false
   end.
+
+(* ---- compact comparison report ------------------------------------------------------------------
+   What the harness evaluates: `c12_check (case, implementation's observation)` is `ROk` exactly when
+   `c12_eqb (c12_run case) observation = true` (lemma c12_check_ok below); otherwise it names the
+   first differing entry with 64-bit approximations (m, e) = m * 2^e of the model's value, the
+   implementation's value and the tolerance.  The exact values stay inside Coq: printing the model's
+   full output for a mismatching case took minutes when the bounds are of the order 1e-300 or 1e300
+   (rationals with thousands of digits go through the number notation of Q). *)
+Inductive c12_report :=
+| ROk
+| RModelNone                                   (* the model fails closed / says the code raises; the implementation returned *)
+| RModelSome (model_rows : nat)                 (* the implementation raised; the model returns this many rows *)
+| RRows (model_rows impl_rows : nat)
+| RRowLength (row model_len impl_len : nat)
+| RDiffer (row col : nat) (model impl tol : Z * Z).
+
+Definition approx (q : Q) : Z * Z :=
+  if Qeq_bool q 0 then (0, 0)%Z
+  else let e := (Z.log2 (Z.abs (Qnum q)) - Z.log2 (Zpos (Qden q)) - 64)%Z in
+       (Qfloor (q * Qpower 2 (- e)), e).
+
+(* first column where the two rows differ: Some (j, Some entries) or Some (j, None) for a length mismatch *)
+Fixpoint diff_row (j : nat) (a b : list (Q * Q)) : option (nat * option ((Q * Q) * (Q * Q))) :=
+  match a, b with
+  | [], [] => None
+  | x :: a', y :: b' => if close x y then diff_row (S j) a' b' else Some (j, Some (x, y))
+  | _, _ => Some (j, None)
+  end.
+
+Fixpoint diff_rows (i : nat) (a b : list (list (Q * Q))) : c12_report :=
+  match a, b with
+  | [], [] => ROk
+  | r :: a', s :: b' =>
+      match diff_row 0 r s with
+      | None => diff_rows (S i) a' b'
+      | Some (j, Some (x, y)) => RDiffer i j (approx (fst x)) (approx (fst y)) (approx (snd y))
+      | Some (_, None) => RRowLength i (length r) (length s)
+      end
+  | _, _ => RRows (i + length a) (i + length b)
+  end.
+
+Definition c12_report_of (m x : c12_obs) : c12_report :=
+  match m, x with
+  | None, None => ROk
+  | Some a, Some b => diff_rows 0 a b
+  | None, Some _ => RModelNone
+  | Some a, None => RModelSome (length a)
+  end.
+
+Definition c12_check (cx : c12_case * c12_obs) : c12_report := c12_report_of (c12_run (fst cx)) (snd cx).
+Definition c12_report_eqb (r e : c12_report) : bool :=
+  match r, e with ROk, ROk => true | _, _ => false end.
+
+Lemma diff_row_ok a : forall j b, diff_row j a b = None <-> all2 close a b = true.
+Proof.
+  induction a as [|x a IH]; intros j [|y b]; cbn; try (split; [reflexivity || discriminate|reflexivity || discriminate]).
+  destruct (close x y); cbn; [apply IH|split; discriminate].
+Qed.
+
+Lemma diff_rows_ok a : forall i b, diff_rows i a b = ROk <-> all2 (all2 close) a b = true.
+Proof.
+  induction a as [|r a IH]; intros i [|s b]; cbn; try (split; [reflexivity || discriminate|reflexivity || discriminate]).
+  destruct (diff_row 0 r s) as [[j [[x y]|]]|] eqn:D.
+  - assert (N : all2 close r s <> true) by (intros T; apply (diff_row_ok r 0%nat s) in T; rewrite T in D; discriminate).
+    destruct (all2 close r s); [exfalso; apply N; reflexivity|]. cbn. split; discriminate.
+  - assert (N : all2 close r s <> true) by (intros T; apply (diff_row_ok r 0%nat s) in T; rewrite T in D; discriminate).
+    destruct (all2 close r s); [exfalso; apply N; reflexivity|]. cbn. split; discriminate.
+  - apply (diff_row_ok r 0%nat s) in D. rewrite D. cbn. apply IH.
+Qed.
+
+(* the compact report accepts exactly what the observation equality accepts *)
+Lemma c12_check_ok c x : c12_report_eqb (c12_check (c, x)) ROk = true <-> c12_eqb (c12_run c) x = true.
+Proof.
+  unfold c12_check, c12_report_of, c12_eqb. cbn [fst snd].
+  destruct (c12_run c) as [a|], x as [b|]; cbn; try (split; reflexivity || discriminate).
+  pose proof (diff_rows_ok a 0%nat b) as E. destruct (diff_rows 0 a b); cbn;
+    try (split; [discriminate|intros T; apply E in T; discriminate]).
+  split; [intros _; apply E; reflexivity|reflexivity].
+Qed.
